@@ -40,7 +40,7 @@ def rand_records(rng, sizes, snaplen):
         n = min(n, snaplen)
         t = rng.choice([0, 1, rng.getrandbits(32), 0xffffffff, rng.randint(1600000000, 1800000000)])
         u = rng.choice([0, 999999, 999999999, rng.getrandbits(32), rng.randint(0, 999999)])
-        w = rng.choice([n, n, n + rng.randint(0, 2000), rng.getrandbits(32)])
+        w = rng.choice([n, n, n + rng.randint(0, 2000), rng.getrandbits(32), 0, max(0, n - 1), n // 2])      # a wire length below the captured length is still a record
         out.append(rec(t, u, rand_bytes(rng, n), wirelen=w))
     return out
 
